@@ -45,6 +45,8 @@ pub struct Ctx {
     pub counters: Mutex<BTreeMap<String, u64>>,
     pub samples: Mutex<Vec<Value>>,
     pub notes: Mutex<Vec<String>>,
+    /// explorations whose non-vacuity witness was not reached
+    pub vacuity: Mutex<Vec<String>>,
     pub extra: Mutex<Map<String, Value>>,
     pub assumptions: Mutex<Vec<String>>,
     pub exhaustive: Mutex<Option<bool>>,
@@ -69,6 +71,7 @@ impl Ctx {
             counters: Mutex::new(BTreeMap::new()),
             samples: Mutex::new(vec![]),
             notes: Mutex::new(vec![]),
+            vacuity: Mutex::new(vec![]),
             extra: Mutex::new(Map::new()),
             assumptions: Mutex::new(vec![]),
             exhaustive: Mutex::new(None),
@@ -92,6 +95,13 @@ impl Ctx {
     }
     pub fn note(&self, s: impl Into<String>) {
         self.notes.lock().unwrap().push(s.into());
+    }
+    /// An exploration that never reached its goal state. On a tree without violations this means the
+    /// harness explored a vacuous space: a machinery error, never a pass.
+    pub fn vacuous(&self, s: impl Into<String>) {
+        let s = s.into();
+        self.note(format!("{s} (vacuity warning)"));
+        self.vacuity.lock().unwrap().push(s);
     }
     pub fn assume(&self, s: impl Into<String>) {
         self.assumptions.lock().unwrap().push(s.into());
@@ -206,6 +216,11 @@ impl Ctx {
             new.len()
         );
         if new.is_empty() {
+            let vac = self.vacuity.into_inner().unwrap();
+            if !vac.is_empty() && known_hit.is_empty() {
+                eprintln!("MACHINERY-ERROR: {} exploration(s) never reached their goal state although nothing was violated (vacuous search), e.g. {}", vac.len(), vac[0]);
+                return 2;
+            }
             return 0;
         }
         let _ = std::fs::create_dir_all(format!("{}/replays", *VERIF_DIR));
